@@ -8,13 +8,14 @@ CONSTANTS
   PickTimes = 3
   LagScale = 1
   MixOK <- MixSmall
-  Root <- ISqrtSmall
+  RootOK <- RootSmall
   Advs = {1, 3}
-  LagVals = {0, 1, 2, 3, 4, 5}
+  LagVals = {0, 1, 3}
+  RootVals = {1, 2}
   TokIds = {1, 2}
-  N = 2
+  Ns = {2}
   T0 = 3
-  MaxNow = 8
-INVARIANTS TypeOK Conservation SuccRange LagRange Stamps ReqCounts OverdueFirst NeverWorse ForcedOnlyOverdue SingleAlways NoStarveEver
+  MaxNow = 6
+INVARIANTS TypeOK Conservation SuccRange LagRange Stamps ReqCounts LineAtStamp ReqConservation LineLoads OverdueFirst NeverWorse ForcedOnlyOverdue SingleAlways NoStarveEver
 VIEW MView
 CHECK_DEADLOCK FALSE
